@@ -45,6 +45,7 @@ def run(rep):
     rep.run(petri)
     rep.run(build_net)
     rep.run(bfs)
+    rep.run(netfold)
 
 
 # ------------------------------------------------------------------ O20.1 / O20.2
@@ -515,3 +516,8 @@ TWINS = [
          new='        for _, s_node, data in G.out_edges(r, data=True):\n            if (\n                s_node in S_nodes\n                and "product" == data.get("role")\n                and data.get("stoich", 0) > 0\n            ):\n                produces = True\n                break\n        if not produces:\n            continue'),
     dict(name="fire with augmented assignment", file=NET, old="            m[p] = m.get(p, 0) + w", new="            m[p] = w + m.get(p, 0)"),
 ]
+
+
+def netfold(rep):
+    from ..rules import netfold as NF
+    NF.check(rep, "O20.3", (NET, RZ, SR), "firing no longer removes pre-weight and adds post-weight tokens")
